@@ -169,7 +169,13 @@ pub struct QAst {
     /// 0 canonical, 1 minimal parentheses, 2 random keyword case, 3 extra whitespace / newlines, 4 redundant parentheses
     pub variant: u8,
     pub case_bits: u64,
+    /// replace the LIMIT (even index) or OFFSET (odd index) literal by BIG[i / 2]: a number beyond the u32 range of these
+    /// terminals, which the parser must reject (an accepted command would carry a different value than the text)
+    #[serde(default)]
+    pub oversize: Option<u8>,
 }
+
+const BIG: [&str; 10] = ["4294967296", "4294967297", "8589934602", "99999999999", "9223372036854775807", "9223372036854775808", "18446744073709551615", "18446744073709551616", "340282366920938463463374607431768211456", "00000000000000000000004294967296"];
 
 const GRANS: [(&str, TimeGranularity); 5] = [("HOUR", TimeGranularity::Hour), ("DAY", TimeGranularity::Day), ("WEEK", TimeGranularity::Week), ("MONTH", TimeGranularity::Month), ("YEAR", TimeGranularity::Year)];
 
@@ -196,9 +202,10 @@ fn qast() -> BoxedStrategy<QAst> {
         prop::collection::vec(any::<u8>(), 12),
         0u8..5,
         any::<u64>(),
+        crate::hist::opt_w(0.06, 0u8..20),
     );
     (part1, part2)
-        .prop_map(|((find, head, links, link_field, ctx, since, using, using_time), (ret, wh, aggs, per, by, limit, offset, order, perm, variant, case_bits))| {
+        .prop_map(|((find, head, links, link_field, ctx, since, using, using_time), (ret, wh, aggs, per, by, limit, offset, order, perm, variant, case_bits, oversize))| {
             // at most one source for the time field (USING f, PER .. USING f, BY .. USING f): the last one wins otherwise
             let mut using = using;
             let mut per = per;
@@ -214,7 +221,7 @@ fn qast() -> BoxedStrategy<QAst> {
             if per.is_none() {
                 per = None;
             }
-            QAst { find, head, links, link_field, ctx, since, using, using_time, ret, wh, aggs, per, by, limit, offset, order, perm, variant, case_bits }
+            QAst { find, head, links, link_field, ctx, since, using, using_time, ret, wh, aggs, per, by, limit, offset, order, perm, variant, case_bits, oversize }
         })
         .boxed()
 }
@@ -439,6 +446,35 @@ fn run_roundtrip(q: &QAst, rep: &mut CaseReport) -> Verdict {
     rep.label(format!("variant:{}", q.variant));
     if let Some(w) = &q.wh {
         rep.label(format!("where-depth:{}", w.depth().min(6)));
+    }
+    if let Some(i) = q.oversize {
+        // numeric terminal beyond its range: the only structure-preserving answers are an error or the same number
+        let big = BIG[(i / 2) as usize % BIG.len()];
+        let (kw, cur) = if i % 2 == 0 || q.offset.is_none() || q.limit.is_none() { ("LIMIT", q.limit) } else { ("OFFSET", q.offset) };
+        let Some(cur) = cur else { return Verdict::Pass };
+        let needle = format!("{} {}", kw, cur);
+        // (keyword case / spacing variants may have changed the needle: only the canonical spelling is used)
+        let Some(pos) = text.rfind(&needle) else { return Verdict::Pass };
+        let big_text = format!("{}{} {}{}", &text[..pos], kw, big, &text[pos + needle.len()..]);
+        rep.label("oversize-number");
+        return match parse_guarded(&big_text) {
+            Err(p) => Verdict::fail("parse-panic", json!({"text": big_text, "panic": p})),
+            Ok(Err(_)) => {
+                rep.nontrivial = true;
+                Verdict::Pass
+            }
+            Ok(Ok(got)) => {
+                let val = match &got {
+                    Command::Query { limit, offset, .. } => if kw == "LIMIT" { limit.map(|v| v as u128) } else { offset.map(|v| v as u128) },
+                    _ => None,
+                };
+                if val == big.parse::<u128>().ok() {
+                    Verdict::Pass
+                } else {
+                    Verdict::fail("number-changed-by-parser", json!({"text": big_text, "terminal": kw, "literal": big, "parsed_as": val.map(|v| v.to_string())}))
+                }
+            }
+        };
     }
     match parse_guarded(&text) {
         Err(p) => Verdict::fail("parse-panic", json!({"text": text, "panic": p})),
